@@ -530,7 +530,7 @@ func freeRunning(r *ev.Run, i int) *p2prig.Scenario {
 }
 
 func body(r *ev.Run) {
-	r.Rule("(1) free-running: legacy full server / experimental peers against 2-4 scripted nodes that connect, announce (inv and headers, two peers at once), drop and get re-dialled, an inbound peer (every fifth scenario: eight hosts connecting at once to a service whose store is past its last checkpoint), and 3 concurrent HTTP readers on /network/peer, /network/peer/count, tips and headers; built with -race (thorough: 3 scenarios in which the peer synced from goes quiet for 135 s, so that the sync manager's 30-second sync-peer check judges it, drops it with no other candidate connected, and it is dialled again), every report attributed by innermost repository functions. (2) controlled scheduler at the repository interface: 15 scenarios of 2-3 submitters/readers (both extend the tip; extend vs heavier fork; two reorganising forks; same header twice; child and parent; chain vs fork; stale branch overtaking; readers (tip, block locator) during reorganisation/extensions; zero-work; orphan and late parent; forbidden headers next to an extension), depth-first enumeration of all schedules within a pre-emption bound for two-thread scenarios, seeded random schedules otherwise; after EVERY granted step, with the world stopped, the table must satisfy the structural invariant and a reader's tip must be a LONGEST row. (4) free-running reorganisation storms: one submitter flips the best chain between a tall light branch and a lower heavier one while 6 readers ask for the tip (HTTP and service layer) as fast as they can - every read must name a stored header, and the submitter (the only writer) reads the tip back after each of its submissions has returned: it must be that submission's outcome; a submission that comes out differently from the model is replayed with no reader active - if it then agrees, the readers changed the outcome. and reorganisations over exactly 500 and 1000 heights (thorough: 499..2001) with readers, after which the table must be one chain labelled as the model says. (3) every execution's Add/GetTip history plus the final table is checked for linearizability against the reference model with porcupine. evaluations = controlled executions + free-running scenarios; distinct = distinct granted-step sequences; non-trivial = all.")
+	r.Rule("(1) free-running: legacy full server / experimental peers against 2-4 scripted nodes that connect, announce (inv and headers, two peers at once), drop and get re-dialled, an inbound peer (every fifth scenario: eight hosts connecting at once to a service whose store is past its last checkpoint), and 3 concurrent HTTP readers on /network/peer, /network/peer/count, tips and headers; built with -race (thorough: 3 scenarios in which the peer synced from goes quiet for 135 s, so that the sync manager's 30-second sync-peer check judges it, drops it with no other candidate connected, and it is dialled again), every report attributed by innermost repository functions. (2) controlled scheduler at the repository interface: 15 scenarios of 2-3 submitters/readers (both extend the tip; extend vs heavier fork; two reorganising forks; same header twice; child and parent; chain vs fork; stale branch overtaking; readers (tip, block locator) during reorganisation/extensions; zero-work; orphan and late parent; forbidden headers next to an extension), depth-first enumeration of all schedules within a pre-emption bound for two-thread scenarios, seeded random schedules otherwise; after EVERY granted step, with the world stopped, the table must satisfy the structural invariant and a reader's tip must be a LONGEST row. (4) free-running reorganisation storms: one submitter flips the best chain between a tall light branch and a lower heavier one while 6 readers ask for the tip (HTTP and service layer) as fast as they can - every read must name a stored header, and the submitter (the only writer) reads the tip back after each of its submissions has returned: it must be that submission's outcome; a submission that comes out differently from the model is replayed with no reader active - if it then agrees, the readers changed the outcome. and reorganisations over exactly 500 and 1000 heights (thorough: 499..2001) with readers, after which the table must be one chain labelled as the model says. (5) thousands of peers each disconnected by six goroutines at the same moment (nobody may panic). (3) every execution's Add/GetTip history plus the final table is checked for linearizability against the reference model with porcupine. evaluations = controlled executions + free-running scenarios; distinct = distinct granted-step sequences; non-trivial = all.")
 	r.Assume("scheduling granularity = calls of repository.Headers (each one SQL statement/transaction)", "a thread blocked on a Go mutex is treated as disabled (goroutine status from runtime.Stack)", "free-running schedules are whatever the real goroutines/sockets produce under load")
 	r.Require("schedules_executed", 200)
 	r.Require("invariant_evaluations", 1000)
@@ -583,6 +583,7 @@ func body(r *ev.Run) {
 		caseID := fmt.Sprintf("deep/%d", d)
 		r.Do(caseID, func() { deepStorm(r, caseID, d) })
 	}
+	r.Do("disconnect-storm", func() { disconnectStorm(r, "disconnect-storm") })
 	// (1)
 	n := r.Pick(10, 150)
 	for i := 0; i < n; i++ {
